@@ -27,6 +27,7 @@ theorem demoDiamond_plain : PlainP demoDiamond demoDag := by
     · cases h; exact ⟨rfl, rfl⟩
   · intro _ _; exact ⟨rfl, rfl⟩
   · intro _ _; rfl
+  · intro _ _; rfl
 
 /-- Boolean form of `OracleOK` -/
 def oracleOKb (P : Program) (s : St) : Choice → Bool
